@@ -1,7 +1,8 @@
 INIT Init
 NEXT Next
 CONSTANTS
-  Families = {1, 2, 3, 4, 5, 6, 7, 8, 9}
+  Families = {1, 2, 3, 4, 5, 6, 7, 8, 9, 10}
   NL = 3
   NB2 = 4
+  NT = 3
 INVARIANT Emit
